@@ -92,6 +92,8 @@ static const scen_t scenarios[] = {
    "three writers, the last batch (140 KB) exceeds the group-commit size limit behind a small leader"},
   {"D17", "B1", 4, "P0.1 F", "", {"g0 g0", "P0.1 C", "g0"}, 0,
    "readers of a key that always exists while a writer overwrites it and a full compaction merges the two versions (the shadowed one is dropped)"},
+  {"D2c", "B1", 0, "", "", {"P0.1 P0.1", "P1.1", "B[P2.1,P3.1]", "n23 n23"}, 0,
+   "group commit over DISJOINT keys: a leader with two queued followers (one a 2-key batch), a later small write by the first writer, and a snapshot reader of the batch's keys: every merged batch stays visible as a whole and in order"},
   {"D2b", "B1", 4, "", "", {"B[P0.1,P1.1]", "B[D0,D1]", "t t"}, 0,
    "batch writer + batch deleter + iterator scanner (both keys or none)"},
 };
